@@ -355,10 +355,36 @@ def run_hist(cases, seed, maxlen):
 
 
 def run_probe(depth, deep=0):
+    """S1; the result is a function of the two freshly built binaries (harness linked against REPO's working tree,
+    driver built from the regenerated model) and of (depth, deep), so it is memoised under their content hash:
+    several properties rest on S1 and would otherwise repeat the identical enumeration"""
+    h = hashlib.sha256()
+    for b in (HARNESS, DRIVER):
+        with open(b, "rb") as f:
+            h.update(f.read())
+    key = "%s-%d-%d" % (h.hexdigest()[:24], depth, deep)
+    cdir = os.path.join(BUILD, "s1cache")
+    cfile = os.path.join(cdir, key + ".json")
+    if os.path.exists(cfile):
+        try:
+            d = json.load(open(cfile))
+            return d["n"], d["mism"]
+        except Exception:
+            pass
     req = harness_lines(["probe", "--depth", str(depth), "--deep", str(deep)])
     n = req.count("\n")
     outs = [l for l in drive(req) if l.startswith("probe ")]
     mism = [l for l in outs if not l.startswith("probe ok")]
+    if len(outs) != n:
+        mism.append("probe MISMATCH unsafe=0 ext=0 buf=0 pe=0 stack=- memo=0 :: driver answered %d of %d probe requests" % (len(outs), n))
+    try:
+        os.makedirs(cdir, exist_ok=True)
+        for old_f in os.listdir(cdir):          # keep the cache small: one tree state at a time per (depth, deep)
+            if old_f.endswith("-%d-%d.json" % (depth, deep)):
+                os.remove(os.path.join(cdir, old_f))
+        json.dump(dict(n=n, mism=mism[:20000]), open(cfile, "w"))
+    except OSError:
+        pass
     return n, mism
 
 
@@ -366,7 +392,7 @@ def case_of(req_line):
     """the key=value part of a request line without the result"""
     return " ".join(t for t in req_line.split(" ")[1:] if not t.startswith("result=") and not t.startswith("steps=")
                     and not t.startswith("final=") and not t.startswith("target=") and not t.startswith("bodyend=")
-                    and not t.startswith("mutated=") and not t.startswith("rewritten="))
+                    and not t.startswith("mutated=") and not t.startswith("rewritten=") and not t.startswith("nv=") and not t.startswith("nm="))
 
 
 def rerun_case(case_line):
@@ -466,7 +492,7 @@ TIERS = {
                   src_exhaustive2=False, hist=6000, hist_len=4),
     "thorough": dict(oracle=dict(default=30000, small=30000, mid=1500, memo=120, big=24, large=2),
                      trace=dict(default=8000, small=8000, memo=40),
-                     probe_depth=3, probe_deep=5, gen=dict(default=20000, small=12000, mid=300), gen_exhaustive=2, mut=120000,
+                     probe_depth=3, probe_deep=4, gen=dict(default=20000, small=12000, mid=300), gen_exhaustive=2, mut=120000,
                      src=40000, src_exhaustive2=True, hist=20000, hist_len=8),
 }
 
@@ -564,7 +590,10 @@ def stream_s1(cx):
 def stream_s2(cx, rate0_only=False):
     ok = 0
     bad = []
-    for prof, n in cx.T["trace"].items():
+    profs = dict(cx.T["trace"])
+    if cx.prop == "C15":
+        profs["c15"] = 336 if cx.tier == "quick" else 6000
+    for prof, n in profs.items():
         for (req, out) in run_trace(n, cx.seed * 7919 + 13, prof, "0" if cx.P["unsafe"] == "0" else "mix"):
             r = toks(req)
             cx.cov["disagreements_checked"] += 1
@@ -573,6 +602,28 @@ def stream_s2(cx, rate0_only=False):
                 cx.cov["evaluations"] += 1
                 if int(r.get("mutated", "0")) > 0 or int(r.get("rewritten", "0")) > 0:
                     cx.failing.append(("S2", case_of(req), "rate_0.0_but_mutated=%s_rewritten=%s" % (r.get("mutated"), r.get("rewritten"))))
+            # ... and rate 1.0 => every value for which a registered mutator is applicable is mutated: per kind, the number
+            # of mutations the run recorded equals the number of value-carrying emissions the registered kinds apply to
+            # (applicability as in C16: bitflip/boundary/offbyone on integers, boundary on floats, stringlen on strings and
+            # byte strings, character on non-empty ones, offbyone/memoindex on memo indices); independent of the model
+            if cx.prop == "C15" and r.get("rate") == "3ff0000000000000" and r.get("nv") and r.get("result", "").startswith("ok:"):
+                names = r["muts"].split(",") if r.get("muts") not in (None, "-") else \
+                    [nm_ for i_, nm_ in enumerate(["bitflip", "boundary", "offbyone", "stringlen", "character", "memoindex", "typeconfusion"])
+                     if (int(r.get("mask", "0")) >> i_) & 1] if r.get("muts") is None else []
+                nv = [int(x) for x in r["nv"].split("/")]
+                nmu = [int(x) for x in r["nm"].split("/")]
+                has = lambda *ks: any(k in names for k in ks)
+                exp = [nv[0] if has("bitflip", "boundary", "offbyone") else 0,
+                       nv[1] if has("boundary") else 0,
+                       (nv[2] + nv[3]) if has("stringlen") else (nv[2] if has("character") else 0),
+                       (nv[4] + nv[5]) if has("stringlen") else (nv[4] if has("character") else 0),
+                       nv[6] if has("offbyone", "memoindex") else 0]
+                cx.cov["evaluations"] += 1
+                cx.bump("rate1-generation/" + ("rand" if r.get("mode", "").startswith("rand") else "arb"))
+                if exp != nmu:
+                    kinds = ["int", "float", "string", "bytes", "memo"]
+                    d = ",".join("%s:mutated_%d_of_%d" % (kinds[i], nmu[i], exp[i]) for i in range(5) if nmu[i] != exp[i])
+                    cx.failing.append(("S2", case_of(req), "rate_1.0_but_" + d))
             if rate0_only:
                 continue
             if " ok " in out:
@@ -1402,6 +1453,20 @@ def cycle_plans(p):
     for pl in plans:
         out.append(pl)
         out.append(pl + ["Pop"])
+    # long programs around a cycle: bookkeeping that is swept, compacted or capped once many cells were created
+    # (hundreds of pushes before the cycle is closed, after it was popped, or both)
+    pad = ["None", "Pop"] * 270
+    for x in "ldo":
+        base = recipe(x, p)
+        if base is None or (x == "o" and p < 2 and False):
+            continue
+        cl = {"l": ["Dup", "Append"], "o": ["Dup", "Build"], "d": ["Dup", "Dup", "SetItem"]}[x]
+        core = base + cl
+        out.append(pad + core + ["Pop"])
+        out.append(core + ["Pop"] + pad)
+        out.append(pad + core + ["Pop"] + pad)
+        out.append(pad + core)
+        out.append(base + pad + cl + ["Pop"] + pad)
     return out
 
 
